@@ -117,4 +117,4 @@ def run(rep, wd, tier, seed):
 
 
 def replay(rep, wd, payload):
-    print('re-run the full check with VERIF_SEED=%s to reproduce (seeded generation)' % payload.get('seed'))
+    isocheck.replay(rep, wd, payload, owner, 'pds')
